@@ -115,6 +115,7 @@ static std::vector<uint8_t> encodeSong(const JV &song)
             else if(k == "off") { status = 0x80 | ch; d1 = (int)e.get("n"); d2 = (int)e.get("v", 0); }
             else if(k == "nat") { status = 0xA0 | ch; d1 = (int)e.get("n"); d2 = (int)e.get("v"); }
             else if(k == "cc") { status = 0xB0 | ch; d1 = (int)e.get("n"); d2 = (int)e.get("v"); }
+            else if(k == "cc111") { status = 0xB0 | ch; d1 = 111; d2 = (int)e.get("v", 0); }
             else if(k == "pc") { status = 0xC0 | ch; d1 = (int)e.get("p"); }
             else if(k == "cat") { status = 0xD0 | ch; d1 = (int)e.get("v"); }
             else if(k == "bend") { status = 0xE0 | ch; d1 = (int)(e.get("v") & 0x7F); d2 = (int)((e.get("v") >> 7) & 0x7F); }
